@@ -64,7 +64,7 @@ func genC20(t *Tape) *c20Scenario {
 	sc := &c20Scenario{}
 	sc.Format = t.Choose(2)
 	sc.Start = t.Weighted(45, 28, 17, 10)
-	sc.Reshape = t.Choose(4)
+	sc.Reshape = t.Choose(6)
 	sc.StartReq = t.Choose(2)
 	sc.KeyA = signKeyKinds[t.Weighted(55, 10, 5, 20, 7, 3)]
 	sc.KeyB = signKeyKinds[t.Weighted(55, 10, 5, 20, 7, 3)]
@@ -80,7 +80,7 @@ func genC20(t *Tape) *c20Scenario {
 		op.Req = t.Choose(2)
 		op.Remote = t.Bool(40)
 		op.WithTSA = t.Bool(20)
-		op.EarlyHow = t.Choose(7)
+		op.EarlyHow = t.Choose(8)
 		op.Reenter = t.Bool(15)
 		op.CtxDone = t.Bool(10)
 		op.SignerHow = 1 + t.Choose(3)
@@ -140,6 +140,16 @@ type c20Req struct {
 	Attr    signature.Attribute
 	Agent   string
 	Expiry  bool
+}
+
+// expectFor is expect for the payload a request actually carried (an injected
+// request defect may have altered it; if such a request is signed after all,
+// the envelope must still say what was asked for).
+func (r *c20Req) expectFor(payload []byte, signingTime time.Time, expiry time.Time) string {
+	saved := r.Payload
+	r.Payload = payload
+	defer func() { r.Payload = saved }()
+	return r.expect(signingTime, expiry)
 }
 
 func (r *c20Req) expect(signingTime time.Time, expiry time.Time) string {
@@ -217,8 +227,8 @@ func tamperEnvelope(format int, b []byte, newPayload []byte) ([]byte, error) {
 }
 
 var reshapeNames = [2][]string{
-	{"x5c_leaf_only", "unknown_header_member", "x5c_as_string", "x5c_removed"},
-	{"x5chain_single_bstr", "x5chain_leaf_only_array", "unknown_header_label", "x5chain_single_bstr+unknown_label"},
+	{"x5c_leaf_only", "unknown_header_member", "x5c_as_string", "x5c_removed", "x5c_plus_undecodable_element", "x5c_plus_garbage_certificate"},
+	{"x5chain_single_bstr", "x5chain_leaf_only_array", "unknown_header_label", "x5chain_single_bstr+unknown_label", "x5chain_plus_non_bstr_element", "x5chain_plus_garbage_certificate"},
 }
 
 // reshapeEnvelope re-encodes the UNPROTECTED part of an envelope the way a
@@ -246,6 +256,10 @@ func reshapeEnvelope(format int, b []byte, kind int) ([]byte, error) {
 			h["x-sim-relay"] = json.RawMessage(`"1"`)
 		case 2:
 			h["x5c"], _ = json.Marshal(x5c[0])
+		case 4:
+			h["x5c"], _ = json.Marshal(append(append([]string(nil), x5c...), "!!! not base64 !!!"))
+		case 5:
+			h["x5c"], _ = json.Marshal(append(append([]string(nil), x5c...), base64.StdEncoding.EncodeToString([]byte("certainly not a certificate"))))
 		default:
 			delete(h, "x5c")
 		}
@@ -288,6 +302,10 @@ func reshapeEnvelope(format int, b []byte, kind int) ([]byte, error) {
 		un[key] = chain[:1]
 	case 2:
 		un[int64(9999)] = "x"
+	case 4:
+		un[key] = append(append([]any(nil), chain...), "not a byte string")
+	case 5:
+		un[key] = append(append([]any(nil), chain...), []byte("certainly not a certificate"))
 	default:
 		un[key] = chain[0]
 		un[int64(9999)] = "x"
@@ -684,6 +702,14 @@ func (sc *c20Scenario) exec(obs *c20Obs, st *Stats) {
 					sr.SigningTime = time.Now().Truncate(time.Second).Add(200 * time.Millisecond)
 					sr.Expiry = sr.SigningTime.Add(700 * time.Millisecond)
 					how = "expiry_within_same_second"
+				case 7:
+					if sc.Format == 0 {
+						sr.Payload.Content = append(append([]byte(nil), sr.Payload.Content...), []byte(` {"trailing":"document"}`)...)
+						how = "payload_with_trailing_document"
+					} else {
+						sr.Payload.Content = nil
+						how = "empty_payload"
+					}
 				case 5:
 					if sc.Format == 0 {
 						sr.Payload.Content = []byte(`["not","an","object"]`)
@@ -785,7 +811,7 @@ func (sc *c20Scenario) exec(obs *c20Obs, st *Stats) {
 				}
 				ante("C20.M3")
 				failedSince = ""
-				want := r.expect(sr.SigningTime, sr.Expiry)
+				want := r.expectFor(sr.Payload.Content, sr.SigningTime, sr.Expiry)
 				// the returned bytes, parsed afresh, verify to the request
 				fresh, perr := signature.ParseEnvelope(mt, b)
 				if perr != nil {
